@@ -11,6 +11,11 @@ def claim(pid, technique, text, note):
     CLAIMS[pid] = dict(technique=technique, text=text, note=note)
 
 exec(open(os.path.join(HERE, "claims.py")).read())
+# obligations added after the seeding rounds (DESIGN.md §10.9): (technique addendum, claim-text addendum)
+for pid, (tech, text) in ADDENDA.items():
+    CLAIMS[pid]["technique"] += "; " + tech
+    CLAIMS[pid]["text"] += " Added after seeding (DESIGN.md §10.9): " + text
+    CLAIMS[pid]["design_ref"] = "§10.9"
 
 NOT_APPLICABLE = NA  # from claims.py
 
@@ -27,7 +32,7 @@ for pid in allp:
         "evidence_file": f"/verif/evidence/{pid}.json",
         "replay_cmd_template": f"./bin/check -p {pid} -tier quick  # the replay file {{path}} lists the violated obligations (file:line, rule, construct)",
         "engine": "kaicheck",
-        "level_claimed": {"category": "other", "text": c["text"], "design_ref": f"DESIGN.md §4 {pid}"},
+        "level_claimed": {"category": "other", "text": c["text"], "design_ref": f"DESIGN.md §4 {pid}" + (", §10.3, §10.9" if pid in ADDENDA else ", §10.3")},
         "level_note": c["note"],
         "technique": c["technique"],
     })
